@@ -346,7 +346,64 @@ def run_reuse(case):
     return res
 
 
-KINDS = {"reuse": run_reuse, "data": run_data, "recovery": run_recovery, "fallback": run_fallback}
+def run_dforms(case):
+    """The same data (quantised so that every spelling carries it exactly) as another dtype / memory layout: the fit must be the same."""
+    from mc import forms as fm
+    from tempest.modes import ModeStatistics
+    from tempest.student import fit_mvstud
+
+    res = Res()
+    d, n, law = case["d"], case["n"], case["law"]
+    X = np.round(make_data(d, n, law, 0.0) * 64) / 64
+    Xi = np.round(X * 8)
+    U = np.round(((X - X.min(0)) / (X.max(0) - X.min(0)) * 0.8 + 0.1) * 1024) / 1024
+    lab = np.arange(n) % 2
+
+    def entries(A, which):
+        with OwnedRandom(case["seed"]):
+            with np.errstate(all="ignore"):
+                if which == "fit":
+                    mu, S, nu = fit_mvstud(A)
+                    return np.asarray(mu, dtype=float), np.asarray(S, dtype=float), np.asarray([nu], dtype=float)
+                ms = ModeStatistics.from_particles(A, np.ones(n), lab.copy(), n_modes=3) if which == "modes" else ModeStatistics.from_global(A, np.ones(n))
+                return np.asarray(ms.means, dtype=float), np.asarray(ms.covariances, dtype=float), np.asarray(ms.degrees_of_freedom, dtype=float)
+
+    for which, base, kinds in (("fit", X, ("strided", "revstrided", "fortran", "readonly", "f32")), ("fit", Xi, ("i64", "i32", "f32", "fortran")),
+                               ("modes", U, ("strided", "revstrided", "fortran", "readonly", "f32")), ("global", U, ("strided", "fortran", "readonly", "f32"))):
+        try:
+            ref = entries(base.copy(), which)
+        except Exception as e:
+            res.bump("reference_fit_raises")
+            continue
+        for kind in kinds:
+            A = fm.form(base, kind)
+            if A is None:
+                continue
+            cc = dict(case, only=[which, kind])
+            if case.get("only") and case["only"] != [which, kind]:
+                continue
+            keep = np.array(A, dtype=float, copy=True)
+            try:
+                got = entries(A, which)
+            except Exception as e:
+                res.violate(f"dforms:{which}:{kind}:raises:{type(e).__name__}", f"{which} raised {e!r} when the data (d={d}, n={n}, {law}) is passed as {kind}; fine as contiguous float64", cc)
+                continue
+            res.evals += 1
+            rtol = 2e-3 if kind == "f32" else 1e-9
+            ok = all(fm.same(g, r, rtol=rtol, atol=rtol * 1e-3) or (np.all(np.isinf(g) == np.isinf(r)) and fm.same(np.where(np.isinf(g), 0, g), np.where(np.isinf(r), 0, r), rtol=rtol, atol=rtol * 1e-3))
+                     for g, r in zip(got[:2], ref[:2]))
+            nu_ok = fm.same(1.0 / got[2], 1.0 / ref[2], rtol=50 * rtol, atol=50 * rtol)
+            res.outcome((which, d, n, law, kind), nontrivial=True)
+            if not ok or not nu_ok:
+                res.violate(f"dforms:{which}:{kind}", f"{which} on data (d={d}, n={n}, {law}) passed as {kind}: location {got[0].tolist()} dof {got[2].tolist()}, "
+                            f"but as contiguous float64: location {ref[0].tolist()} dof {ref[2].tolist()} (rtol {rtol:g})", cc)
+            if not np.array_equal(np.asarray(A, dtype=float), keep):
+                res.violate(f"dforms:{which}:input-modified", f"{which} modified its input array ({kind})", cc)
+    res.states += 1
+    return res
+
+
+KINDS = {"dforms": run_dforms, "reuse": run_reuse, "data": run_data, "recovery": run_recovery, "fallback": run_fallback}
 
 
 def plan(ctx):
@@ -372,6 +429,8 @@ def plan(ctx):
           for name in ("fit_mvstud", "from_global", "all-occupied", "empty-last", "empty-first", "one-cluster+2-empty")]
     ctx.bounds["call_history_sequences"] = len(seqs)
     ctx.explore("call-histories-and-buffer-reuse", ru)
+    df = [{"kind": "dforms", "d": d, "n": n, "law": law, "seed": ctx.seed} for d in (1, 2, 3) + ((5,) if th else ()) for n in (8 * d, 40) for law in ("gauss", "t2", "t5", "skew", "contam5")]
+    ctx.explore("data-array-forms", df)
     ctx.bounds.update({"dims": [1, 2, 3, 5, 8], "sizes": "4d,10d,50d(,2000)", "laws": laws, "rho": [0, 0.9, -0.99], "data_sets": len(cases), "recovery_cases": len(rec)})
     if not agg.extra.get("fallback_engaged"):
         ctx.notes.append("no fallback case had a non-finite fitted nu under this tape")
